@@ -190,7 +190,7 @@ def eigh_cases(draw, tier):
         "dm": draw(st.sampled_from(["physical", "physical_lowrank", "generic", "physical"])),
         "nstates": draw(st.integers(1, 3)),
         "cplx": draw(st.integers(0, 3)) == 3,
-        "scale_exp": draw(st.sampled_from([0, 0, -3, 3])),
+        "scale_exp": draw(st.sampled_from([0, 0, -3, 3, -18, -12, 8])),
         "tensor_shape": draw(st.booleans()),
     }
     spec["labels"] = draw(label_specs(10, allow_nomatch=False))
